@@ -14,7 +14,9 @@ static bool leak_free_if_changed(Result &r, size_t before, const char *what) {
     if (__lsan_do_recoverable_leak_check() != 0) { r.fatal = true; r.fail(std::string("LeakSanitizer: memory still allocated after ") + what); return false; }
     return true;
 }
+static long g_lsan_calls = 0;
 static bool leak_free(Result &r, const char *what) {
+    g_lsan_calls++;
     if (__lsan_do_recoverable_leak_check() != 0) { r.fatal = true; r.fail(std::string("LeakSanitizer: memory still allocated after ") + what); return false; }
     return true;
 }
@@ -263,9 +265,48 @@ static Case gen_grid() {
 }
 
 // ------------------------------------------------------------------------------------ configuration box
+// witness: a long-lived ordinary instance of the same back end that stays alive across the life of the instance under
+// test ("accepted instances can be used without memory faults" holds for the ones already there, too); present in
+// part of the cases only, so that first-instance set-up and last-instance tear-down of a back end stay covered
+struct Witness { int desc = -1; Config g; std::vector<uint8_t> data; Stripe s; };
+static Witness *g_wit[16];
+static Config witness_shape(int be) {
+    Config g; g.backend = be; g.ct = CT_CRC32; g.w = 0;
+    if (be == ref::B_XOR) { g.k = 10; g.m = 5; g.hd = 3; } else { g.k = 4; g.m = 3; g.hd = 3; }
+    return g;
+}
+static void witness_set(int be, bool want, Result &r) {
+    if (be < 0 || be >= 16) return;
+    bool real = be == ref::B_RS || be == ref::B_XOR || (ref::is_isa(be) && isa_available());
+    if (!real) return;
+    if (!want) { if (g_wit[be]) { liberasurecode_instance_destroy(g_wit[be]->desc); delete g_wit[be]; g_wit[be] = nullptr; } return; }
+    if (g_wit[be]) return;
+    Witness *w = new Witness; w->g = witness_shape(be);
+    w->desc = create(w->g);
+    if (w->desc <= 0) { r.fail("witness create failed"); delete w; return; }
+    w->data.resize(w->g.k * 24 + 3);
+    for (size_t i = 0; i < w->data.size(); i++) w->data[i] = (uint8_t)(i * 29 + 7);
+    w->s = encode(w->desc, w->g, w->data);
+    if (w->s.rc != 0) { r.fail("witness encode failed"); liberasurecode_instance_destroy(w->desc); delete w; return; }
+    g_wit[be] = w;
+}
+static void witness_check(int be, Result &r, const char *when) {
+    if (be < 0 || be >= 16 || !g_wit[be]) return;
+    Witness &w = *g_wit[be];
+    Stripe s = encode(w.desc, w.g, w.data);
+    if (s.rc != 0 || s.frags != w.s.frags) { r.fail(std::string("the long-lived instance of the same back end encodes differently ") + when); return; }
+    std::vector<const std::vector<uint8_t> *> frs;
+    for (int i = 2; i < w.g.n(); i++) frs.push_back(&w.s.frags[i]);          // data fragments 0 and 1 lost
+    FragSet fs; fs.build(frs, {});
+    DecodeOut o = decode(w.desc, fs, w.s.fraglen, 0);
+    if (o.rc != 0 || o.out != w.data) r.fail(std::string("the long-lived instance of the same back end no longer decodes ") + when + " (rc=" + std::to_string(o.rc) + ")");
+}
 static Result run_box(const Case &c) {
     Result r;
     Config g = cfg_from(c);
+    witness_set(g.backend, c.get("witness", 0) != 0, r);
+    if (!r.ok) return r;
+    if (c.get("witness", 0) && g.backend >= 0 && g.backend < 16 && g_wit[g.backend]) r.cls("with_live_sibling");
     bool supported_shape = g.k >= 1 && g.m >= 0 && g.k + g.m <= 32 && (g.backend != ref::B_XOR || ref::xor_shape(g.k, g.m, g.hd));
     struct ec_args a; memset(&a, 0, sizeof a); a.k = g.k; a.m = g.m; a.hd = g.hd; a.w = g.w; a.ct = g.ct;
     size_t bytes_before = __sanitizer_get_current_allocated_bytes();
@@ -278,15 +319,16 @@ static Result run_box(const Case &c) {
     if (!supported_shape) {
         if (d > 0) { r.fail("create accepted an unsupported shape (backend " + std::to_string(g.backend) + " k=" + std::to_string(g.k) + " m=" + std::to_string(g.m) + " hd=" + std::to_string(g.hd) + " w=" + std::to_string(g.w) + ")"); liberasurecode_instance_destroy(d); leak_free(r, "create of an unsupported shape + destroy"); }
         else if (bytes_after_create != bytes_before) leak_free(r, "refused create");
+        witness_check(g.backend, r, "after a refused create");
         return r;
     }
-    if (d < 0) { if (bytes_after_create != bytes_before) leak_free(r, "refused create"); return r; }
+    if (d < 0) { if (bytes_after_create != bytes_before) leak_free(r, "refused create"); witness_check(g.backend, r, "after a refused create"); return r; }
     // accepted: full cycle must work without faults
     bool real = g.backend == ref::B_RS || g.backend == ref::B_XOR || ref::is_isa(g.backend);
     int n = g.n();
     int al1 = liberasurecode_get_aligned_data_size(d, 1), mn = liberasurecode_get_minimum_encode_size(d), fs = liberasurecode_get_fragment_size(d, 1);
     if (al1 <= 0 || mn <= 0 || fs <= 0) r.fail("size queries on an accepted instance returned " + std::to_string(al1) + "," + std::to_string(mn) + "," + std::to_string(fs));
-    std::vector<size_t> lens = {0, 1, (size_t)(mn > 0 ? mn + 1 : 5)};
+    const size_t lens[3] = {0, 1, (size_t)(mn > 0 ? mn + 1 : 5)};       // (no heap allocation may outlive the cycle: the byte-count pre-filter below compares against the count before create)
     for (size_t len : lens) {
         std::vector<uint8_t> data(len);
         for (size_t i = 0; i < len; i++) data[i] = (uint8_t)(i * 13 + 5);
@@ -344,6 +386,7 @@ static Result run_box(const Case &c) {
         if (rc != 0) r.fail("fragments_needed failed rc=" + std::to_string(rc) + " on an accepted instance");
     }
     if (liberasurecode_instance_destroy(d) != 0) r.fail("destroy failed");
+    witness_check(g.backend, r, "after the life of an accepted instance");
     // LeakSanitizer decides; the stop-the-world check is skipped only when the allocator's live byte count is exactly
     // what it was before create (nothing can have leaked then), plus a deterministic 1/16 sample regardless
     if (!r.ok || __sanitizer_get_current_allocated_bytes() != bytes_before || ((g.k * 31 + g.m * 7 + g.hd * 3 + g.w + g.backend) % 16) == 0) leak_free(r, "full cycle");
@@ -366,11 +409,13 @@ static void sweep_box() {
                 if ((counter++ % ns) != shard) continue;
                 Case c; Config g; g.backend = be; g.k = k; g.m = m; g.hd = hd; g.w = WS[wi]; g.ct = ((k + m) & 1) ? CT_CRC32 : CT_NONE;
                 cfg_to(c, g);
+                c.set("witness", (counter / 96) & 1);
                 sweep_case(c, run_box);
             }
     }
     stats().exhaustive = th;
     stats().extra["box_backends"] = 9;
+    stats().extra["sum_lsan_checks"] = g_lsan_calls;
 }
 static Case gen_box() {
     Case c; Config g;
@@ -384,6 +429,7 @@ static Case gen_box() {
     g.w = WS[pick(0, 7)];
     g.ct = (int)pick(1, 3);
     cfg_to(c, g);
+    c.set("witness", coin(1, 3) ? 1 : 0);
     return c;
 }
 
